@@ -227,7 +227,8 @@ def check_C11(res, tier, seed, replay):
             with open(path, 'w') as f:
                 f.write(demo_file_text(g, nl))
             jobs.append((prog, args + [path], k, P, g))
-        algo_flags = {'signed': [], 'fvs': ['--signed=false', '--fvstrees=true'], 'iso': ['--signed=false', '--isotrees=true']}
+        algo_flags = {'signed': [], 'fvs': ['--signed=false', '--fvstrees=true'], 'iso': ['--signed=false', '--isotrees=true'],
+                      'iso_by_default': ['--signed=false'], 'signed_explicit': ['--signed=true', '--fvstrees=true']}
         combos = []
         for a in algo_flags:
             for par in ('true', 'false'):
